@@ -207,6 +207,44 @@ func vh_C15_Cor_ManyPendingAtCompletion() {
 	vfReach("end")
 }
 
+// ... also when MORE requests are pending than the target's request buffer holds (5): the callers whose request is still
+// waiting for room are released as well, and the target's completion itself does not hang
+func vh_C15_Cor_MorePendingThanBuffered() {
+	callers := vfRange("callers", 6, 7+vfTier())
+	gate := make(chan struct{})
+	var target *CorDef[int]
+	finished := false
+	target = CorNewGenerics[int](func() { <-gate }) // serves nobody
+	cs := make([]*CorDef[int], callers)
+	returned := make([]bool, callers)
+	for i := range cs {
+		i := i
+		cs[i] = CorNewGenerics[int](func() { cs[i].YieldFrom(target, vfInt("request")); returned[i] = true })
+	}
+	target.Start()
+	for _, c := range cs {
+		c.Start()
+	}
+	vfQuiesce() // five requests are queued on the target, the others wait for room
+	close(gate) // the target returns with all of them pending
+	vfQuiesce()
+	finished = target.IsDone()
+	vfAssert("target-done", finished)
+	all := true
+	for i := range cs {
+		all = all && returned[i] && cs[i].IsDone()
+	}
+	vfAssert("caller-released-when-target-completes", all)
+	// a request that begins after the completion returns at once
+	done := false
+	var late *CorDef[int]
+	late = CorNewGenerics[int](func() { late.YieldFrom(target, 1); done = true })
+	late.Start()
+	vfQuiesce()
+	vfAssert("yieldfrom-finished-target-returns", done)
+	vfReach("end")
+}
+
 // a queue closed with items still waiting in it: every call that begins after Close returned reports the close - the
 // leftovers are not handed out by Take / TakeWithTimeout / Poll afterwards
 func vh_C15_Queue_ClosedWithBacklog() {
